@@ -74,10 +74,28 @@ def showOut (o : GOut Float) : String :=
     | none => "-"
   s!"{o.nv}|{fbits o.buried}|{fbits o.evol}|{fbits o.eloc}|{showDets o.sc}|{showDets o.bb}|{showDets o.cb}|{fbits o.pka}|{c}"
 
+/-- the regenerated parameters as the driver holds them, for the read-back comparison with the current `Parameters` object -/
+def dumpParams : String :=
+  let fl (xs : List Float) := ",".intercalate (xs.map fbits)
+  let s3 (l : List (String × Float × Float × Float)) := ";".intercalate (l.map fun e => s!"{tohexS e.1}:{fbits e.2.1}:{fbits e.2.2.1}:{fbits e.2.2.2}")
+  " ".intercalate [
+    "ep=" ++ fl Gen.Scoring.ep,
+    "cut=" ++ fl [Gen.Scoring.desolvCut2, Gen.Scoring.buriedCut2, Gen.Scoring.cc2sq, Gen.Scoring.vdwC4, Gen.Scoring.scInt, Gen.Scoring.scDefault.1,
+                  Gen.Scoring.scDefault.2, Gen.Scoring.combMax, Gen.Scoring.sepMax, Gen.Scoring.minV, Gen.Scoring.fangleMin, Gen.Scoring.fixedPka],
+    "exc=" ++ fl Gen.Scoring.exceptions,
+    "vdw=" ++ ";".intercalate (Gen.Scoring.vdw.map fun e => s!"{tohexS e.1}:{fbits e.2}"),
+    "sc=" ++ ";".intercalate (Gen.Scoring.scPairs.map fun e => s!"{tohexS e.1}:{tohexS e.2.1}:{fbits e.2.2.1}:{fbits e.2.2.2}"),
+    "nh=" ++ s3 Gen.Scoring.bbNH, "co=" ++ s3 Gen.Scoring.bbCO,
+    "im=" ++ ";".intercalate (Gen.Scoring.imat.map fun e => s!"{tohexS e.1}:{tohexS e.2.1}:{e.2.2.toNat}"),
+    "lists=" ++ "|".intercalate ([Gen.Scoring.angular, Gen.Scoring.baseList, Gen.Scoring.exclList, Gen.Scoring.reorgList, Gen.Scoring.ionKeys].map
+      fun l => ",".intercalate (l.map tohexS)),
+    s!"minBond={Gen.Scoring.minBond}", s!"rp={Gen.Scoring.removePenalised}", s!"shared={Gen.Scoring.sharedDeterminants}"]
+
 /-- `scoring run <removePenalised: 0|1|-> <atoms ;-separated> <groups ;-separated>` -> one record per group, `;`-separated;
     `scoring shared` -> whether the shipped file sets shared_determinants (outside the model) -/
 def handle (args : List String) : String :=
   match args with
+  | ["params"] => dumpParams
   | ["shared"] => if Gen.Scoring.sharedDeterminants then "1" else "0"
   | ["run", rp, as, gs] =>
     let removePen := if rp == "-" then Gen.Scoring.removePenalised else rp == "1"
